@@ -55,6 +55,10 @@ type c17Case struct {
 	Services   []c17Service `json:"services"`
 	FileDepr   bool         `json:"file_deprecated"`
 	Imported   bool         `json:"imported"` // request/response types live in an imported file
+	// Mixed (with Imported): only the request type lives in the imported file, the
+	// response type in the file itself: the generated code refers to two message
+	// packages (with GoTail: two packages whose import paths end alike).
+	Mixed bool `json:"mixed,omitempty"`
 	NoServices bool         `json:"no_services"`
 	// GoTail: last element of the Go import path of the file (and of the
 	// imported file's, when Imported); default "y".  Generated code refers to
@@ -80,6 +84,9 @@ func (k c17Case) key() string {
 	}
 	if k.Sibling {
 		extra += "/sibling"
+	}
+	if k.Mixed {
+		extra += "/mixed"
 	}
 	return fmt.Sprintf("pkg=%q/gopkg%d/fdep%v/imp%v/%s%s", k.Package, k.GoPkgForm, b2i(k.FileDepr), b2i(k.Imported), strings.Join(parts, "+"), extra)
 }
@@ -148,6 +155,9 @@ func (k c17Case) build() *pluginpb.CodeGeneratorRequest {
 		req.FileToGenerate = append([]string{depName}, req.FileToGenerate...)
 		fd.Dependency = []string{depName}
 		typePrefix = ".dep.v1."
+		if k.Mixed {
+			fd.MessageType = []*descriptorpb.DescriptorProto{msg("Res")}
+		}
 	} else {
 		fd.MessageType = []*descriptorpb.DescriptorProto{msg("Req"), msg("Res")}
 	}
@@ -163,6 +173,13 @@ func (k c17Case) build() *pluginpb.CodeGeneratorRequest {
 			}
 			for mi, m := range s.Methods {
 				md := &descriptorpb.MethodDescriptorProto{Name: proto.String(m.Name), InputType: proto.String(typePrefix + "Req"), OutputType: proto.String(typePrefix + "Res")}
+				if k.Imported && k.Mixed {
+					own := "."
+					if k.Package != "" {
+						own = "." + k.Package + "."
+					}
+					md.OutputType = proto.String(own + "Res")
+				}
 				if m.ClientStream {
 					md.ClientStreaming = proto.Bool(true)
 				}
@@ -452,9 +469,18 @@ func c17Check(c *ev.Collector, env *pluginEnv, k c17Case) *c17Gen {
 		c.Outcome("violation")
 		return nil
 	}
-	resp2, _, err2 := runPlugin(env.connectGo, req)
-	if err2 != nil || !proto.Equal(resp, resp2) {
-		viol("deterministic", "differs", "two runs of the plugin on the same request differ")
+	// determinism: the same request again - many times when the messages come from several Go
+	// packages (the order in which a generator meets them may depend on map iteration)
+	runs := 1
+	if k.Imported {
+		runs = 48
+	}
+	for i := 0; i < runs; i++ {
+		resp2, _, err2 := runPlugin(env.connectGo, req)
+		if err2 != nil || !proto.Equal(resp, resp2) {
+			viol("deterministic", "differs", "run %d of the plugin on the same request differs from the first", i+2)
+			break
+		}
 	}
 	var connectFiles []*pluginpb.CodeGeneratorResponse_File
 	for _, f := range resp.File {
@@ -682,6 +708,11 @@ func c17Cases(thorough bool) (out []c17Case) {
 					out = append(out, k)
 				}
 			}
+		}
+		// messages from two Go packages whose import paths end in the same element (…/order/v1, …/money/v1)
+		for _, tail := range []string{"v1", "http", "types"} {
+			id++
+			out = append(out, c17Case{ID: id, Package: "a.b.v1", Imported: true, Mixed: true, GoTail: tail, Services: []c17Service{{Name: "Svc", Methods: []c17Method{{Name: "Do"}, {Name: "Up", ClientStream: true}, {Name: "Down", ServerStream: true}}}}})
 		}
 		// service names whose derived identifiers meet the constructors' parameters, each other, or the import alias
 		for _, svcs := range [][]string{{"Http"}, {"HTTP"}, {"Opts"}, {"BaseURL"}, {"Svc"}, {"Order", "NewOrder"}, {"Thing", "UnimplementedThing"}} {
